@@ -394,6 +394,24 @@ def check_embedding_paths(ctx):
         c = inner[0]
         ok = len(c.args) >= 3 and [norm(a) for a in c.args[:3]] == ps[:3]
         ctx.check(ok, R5, w.key, "forwards (matrix, qubits, num_qubits) in order", f"{short(c, 80)} does not forward (matrix, qubits, num_qubits) in that order", w)
+        # ... and forwards them *as received*: the two twins are one interface over two number types, so what one of them
+        # does to the index tuple (or to the matrix beyond a type conversion) the other would have to do as well
+        rebound = []
+        for st in body_walk(w.node):
+            tgts = []
+            if isinstance(st, ast.Assign):
+                tgts = [t for tg in st.targets for t in ast.walk(tg) if isinstance(t, ast.Name)]
+            elif isinstance(st, (ast.AugAssign, ast.AnnAssign)) and isinstance(st.target, ast.Name):
+                tgts = [st.target]
+            for t in tgts:
+                if t.id in ps[1:3]:
+                    rebound.append((t.id, st))
+                elif t.id == ps[0]:
+                    v = getattr(st, "value", None)
+                    conv = isinstance(st, ast.Assign) and len(st.targets) == 1 and isinstance(st.targets[0], ast.Name) and isinstance(v, ast.Call) and (dotted(v.func) or "").split(".")[-1] in ("array", "asarray", "Matrix", "ImmutableMatrix") and v.args and norm(v.args[0]) == ps[0]
+                    if not conv:
+                        rebound.append((t.id, st))
+        ctx.check(not rebound, R5, w.key + ":as-received", "matrix (up to a type conversion), qubit tuple and width are forwarded as received", f"{name} rewrites `{rebound[0][0]}` ({short(rebound[0][1], 70)}) before embedding while its twin embeds the arguments as received: the numeric and the symbolic path of GateOperation.lifted_matrix then place the same gate differently unless that rewrite is exactly compensated (a permutation applied with the wrong direction only shows for gates on three or more cyclically ordered qubits)" if rebound else "", f"{w.module.relpath}:{rebound[0][1].lineno}" if rebound else w)
     ap = repo.func("circuits._gates:GateOperation.apply")
     ctx.analysed(ap)
     rets = returned_exprs(ap.node)
